@@ -38,7 +38,7 @@ WIDTHS = [1, 2, 3, 4, 5, 8, 9]
 HEIGHTS = [1, 2, 3]
 COLOURS = ["G8", "RGB8", "G1"]
 PATTERNS = ["ramp", "zeros", "ones", "alternating", "rows"]
-CHAINS = ["none", "Fl", "LZW", "A85", "AHx", "RL", "A85+Fl", "Fl+PNG"]
+CHAINS = ["none", "Fl", "LZW", "A85", "AHx", "RL", "A85+Fl", "Fl+PNG", "Fl+PNG10-14", "LZW+PNG12", "Fl+Pred1"]
 G1_EXTRA_WIDTHS = [32, 33]  # 1-bit rows whose byte count crosses the 4-byte BMP stride
 INLINE_SIGMA = [b"E", b"I", b" ", b"\n", b"\r", b"\x00", b"x", b"\xff"]
 
@@ -50,7 +50,7 @@ BOUNDS = {
 META = {
     "rule": (
         "xobject: colour {DeviceGray 8, DeviceRGB 8, DeviceGray 1} x width (1-bit: also 32, 33) x height x sample pattern {ramp, all-0, all-FF, alternating, "
-        "row-distinct} x filter chain {none, Fl, LZW, A85, AHx, RL, A85+Fl, Fl+PNG predictor 15} (one document of five images per "
+        "row-distinct} x filter chain {none, Fl, LZW, A85, AHx, RL, A85+Fl, Fl+PNG predictor 15, Fl+PNG predictor 10..14 (one value per pattern), LZW+PNG predictor 12, Fl+Predictor 1} (one document of five images per "
         "colour x geometry x chain; Fl+PNG only where the row decoder is within its C03-judged domain: 1-bit only at width 8); "
         "dct: 3 opaque JPEG byte strings x {DeviceGray, DeviceRGB} x chain {DCT, A85+DCT, Fl+DCT}; names: documents whose pages reuse one "
         "image name dup_names times (plus a name that collides with the uniquifier's own suffix, bmp/jpg side by side, the same image painted twice, and dup_names inline images on one page); "
@@ -61,7 +61,8 @@ META = {
         "(first match of EI+white-space in data+LF+EI+LF is at len(data)+1), each run with PDFContentParser.BUFSIZ in bufsizes and 4096, "
         "and in a real document at every stream offset that puts the 4096-byte buffer boundary on each byte of 'ID <data>LF EI LF'; "
         "inline-filtered: the sample patterns as inline images with abbreviated keys through {none, AHx, A85, RL, LZW, Fl}, exported; "
-        "inline-variants: full key names, LF after ID, EI as the last bytes of the stream, '~>EI' without white-space. "
+        "inline-streams: the program cut at operator boundaries into every 2- and 3-stream /Contents array (the image wholly inside one stream), "
+        "3 payloads, BUFSIZ {4096, 1, 5}; inline-variants: full key names, LF after ID, EI as the last bytes of the stream, '~>EI' without white-space. "
         "A case = one image (or one inline program run); non-trivial = at least one pixel / data byte / following glyph was compared. "
         "states = generated documents and programs, transitions = individual observations compared with the model (one exported file, "
         "one LTImage attribute set, one inline payload, one glyph list), traces = cases whose every observation was compared."
@@ -74,7 +75,7 @@ META = {
         "reference encoders (LZW, RunLength, ASCII85, ASCIIHex, PNG predictors) are validated by round trip through my own decoders and against the ISO LZW example",
         "PNG-predictor rows are limited to the part of apply_png_predictor that C03 judges correct (see rule); predictor defects belong to C03",
         "inline image data is followed by exactly one LF before EI (the convention of the design); data ending in CR is then indistinguishable from a CR LF separator -- see the known finding",
-        "inline data longer than inline_len, filters whose encoded bytes happen to contain the end marker (skipped, counted), and images split across content streams are not explored",
+        "inline data longer than inline_len, filters whose encoded bytes happen to contain the end marker (skipped, counted), and images whose own bytes are split across content streams are not explored",
         "termination of the content parser is judged by a counted budget of 8*len+1024 fillbuf() calls per run (a livelock is reported as C18/inline-exception:Livelock...), not by time",
         "the interpreter's glyph rendering itself is judged by C05; here glyphs after an inline image are only compared with the same program without the image",
     ],
@@ -141,12 +142,12 @@ def png_rows(colour: str) -> List[int]:
 
 
 def chain_supported(colour: str, w: int, chain: str) -> bool:
-    if chain == "Fl+PNG" and colour == "G1":
+    if "+PNG" in chain and colour == "G1":
         return w == 8
     return True
 
 
-def encode_chain(chain: str, data: bytes, colour: str, w: int, abbreviated: bool = False) -> Tuple[Any, Any, bytes]:
+def encode_chain(chain: str, data: bytes, colour: str, w: int, abbreviated: bool = False, variant: int = 0) -> Tuple[Any, Any, bytes]:
     """-> (Filter value or None, DecodeParms or None, encoded bytes)"""
     names = {
         "Fl": ("FlateDecode", "Fl"),
@@ -174,12 +175,18 @@ def encode_chain(chain: str, data: bytes, colour: str, w: int, abbreviated: bool
         return nm("RL"), None, codecs.rl_encode(data)
     if chain == "A85+Fl":
         return [nm("A85"), nm("Fl")], None, codecs.a85_encode(codecs.flate_encode(data))
-    if chain == "Fl+PNG":
+    if chain in ("Fl+PNG", "Fl+PNG10-14", "LZW+PNG12"):
+        # any Predictor value 10..15 selects the PNG scheme; the function used is tagged per row (ISO 7.4.4.4)
+        predictor = {"Fl+PNG": 15, "Fl+PNG10-14": 10 + variant % 5, "LZW+PNG12": 12}[chain]
         rb = row_bytes(colour, w)
         bpp = max(1, NCOMP[colour] * BPC[colour] // 8)
         pred = codecs.png_predict(data, rb, bpp, png_rows(colour))
-        parms = {"Predictor": 15, "Colors": NCOMP[colour], "BitsPerComponent": BPC[colour], "Columns": w}
+        parms = {"Predictor": predictor, "Colors": NCOMP[colour], "BitsPerComponent": BPC[colour], "Columns": w}
+        if chain == "LZW+PNG12":
+            return nm("LZW"), parms, codecs.lzw_encode(pred)
         return nm("Fl"), parms, codecs.flate_encode(pred)
+    if chain == "Fl+Pred1":
+        return nm("Fl"), {"Predictor": 1, "Columns": w}, codecs.flate_encode(data)
     if chain == "DCT":
         return nm("DCT"), None, data
     if chain == "A85+DCT":
@@ -530,13 +537,15 @@ class InlineRig:
         self.page = next(PDFPage.create_pages(self.doc))
         self.rsrc = PDFResourceManager()
 
-    def run(self, content: bytes, bufsiz: int = 4096):
+    def run(self, content, bufsiz: int = 4096):
+        """content: bytes, or a list of bytes = the streams of a /Contents array"""
         dev = PDFPageAggregator(self.rsrc, laparams=None)
         interp = PDFPageInterpreter(self.rsrc, dev)
-        self.page.contents = [PDFStream({}, content)]
+        streams = [content] if isinstance(content, (bytes, bytearray)) else list(content)
+        self.page.contents = [PDFStream({}, bytes(c)) for c in streams]
         old = PDFContentParser.BUFSIZ
         PDFContentParser.BUFSIZ = bufsiz
-        set_budget(len(content))
+        set_budget(sum(len(c) for c in streams) + 64 * len(streams))
         try:
             interp.process_page(self.page)
         finally:
@@ -635,6 +644,15 @@ def judge_inline(obs, ref_chars, data: bytes, w: int, h: int, colour: str, decod
 # ----------------------------------------------------------------------------------------------
 # shards
 # ----------------------------------------------------------------------------------------------
+# ---- inline image inside one stream of a /Contents array (the image itself is never split)
+STREAM_DATA = [b"ab", b"E I\x00\xff", b"\n\xff\n"]
+
+
+def stream_pieces(data: bytes) -> List[bytes]:
+    img = b"BI /W %d /H 1 /BPC 8 /CS /G ID " % len(data) + data + b"\nEI"
+    return [b"BT", b"/F1 10 Tf", b"10 50 Td", b"(A) Tj", b"ET", b"q 30 0 0 30 50 50 cm", img, b"Q", b"BT", b"/F1 10 Tf", b"10 20 Td", b"(Z) Tj", b"ET", b"q 1 0 0 1 5 5 cm", b"BT", b"/F1 8 Tf", b"(q) Tj", b"ET", b"Q"]
+
+
 def inline_data_strings(maxlen: int) -> List[bytes]:
     out = []
     for n in range(1, maxlen + 1):
@@ -664,6 +682,9 @@ def shards(tier):
     for c in COLOURS:
         out.append(("inline-filtered", c))
     out.append(("inline-variants",))
+    for di in range(len(STREAM_DATA)):
+        for nstreams in (2, 3):
+            out.append(("inline-streams", di, nstreams))
     return out
 
 
@@ -677,7 +698,7 @@ def xobject_doc(colour, w, h, chain):
     xobjs = {}
     for pi, pat in enumerate(PATTERNS):
         samples = make_samples(colour, w, h, pat)
-        filt, parms, enc = encode_chain(chain, samples, colour, w)
+        filt, parms, enc = encode_chain(chain, samples, colour, w, variant=pi)
         name = "Im%d" % pi
         xobjs[name] = image_xobject(colour, w, h, filt, parms, enc)
         images.append({"name": name, "colour": colour, "w": w, "h": h, "samples": samples, "ext": ".bmp", "chain": chain, "pattern": pat})
@@ -890,6 +911,28 @@ def run_shard(shard, tier, st):
                                 ev += judge_bmp("<inline>.bmp", files[fn], colour, w, h, samples)
                             _record(st, ev, {"family": "inline-export", "pdf": pdf, "colour": colour, "w": w, "h": h, "samples": samples, "chain": chain})
         st.sample({"family": fam, "colour": colour, "chain": chain, "program": prog})
+    elif fam == "inline-streams":
+        rig = InlineRig()
+        data = STREAM_DATA[shard[1]]
+        pieces = stream_pieces(data)
+        ref = rig.run(b"\n".join(p for p in pieces if not p.startswith(b"BI ")) + b"\n")[1]
+        n = len(pieces)
+        for cuts in itertools.combinations(range(1, n), shard[2] - 1):
+            bounds = (0,) + cuts + (n,)
+            streams = [b"\n".join(pieces[a:z]) + b"\n" for a, z in zip(bounds, bounds[1:])]
+            for bs in (4096, 1, 5):
+                try:
+                    obs = rig.run(streams, bs)
+                except Exception as e:  # noqa
+                    obs = e
+                viols, outcome = judge_inline(obs, ref, data, len(data), 1, "G8", context=":contents-array")
+                st.states += 1
+                st.transitions += 2
+                st.traces += 1
+                st.case(None, nontrivial=True, outcome=outcome + (cuts,))
+                _record(st, viols, {"family": "inline", "program": streams, "bufsiz": bs, "data": data, "w": len(data), "h": 1, "colour": "G8", "decoded": None, "full_doc": False, "context": ":contents-array", "ref_program": b"\n".join(p for p in pieces if not p.startswith(b"BI ")) + b"\n"})
+        if shard[1:] == (1, 2):
+            st.sample({"family": fam, "streams": streams, "data": data})
     elif fam == "inline-variants":
         rig = InlineRig()
         ref = rig.run(PRE + b"q 30 0 0 30 50 50 cm\nQ\n" + POST)[1]
@@ -950,6 +993,8 @@ def replay(case):
     elif fam == "inline":
         rig = InlineRig()
         body = PRE + b"q 30 0 0 30 50 50 cm\nQ\n" + (b"" if case.get("nopost") else POST)
+        if case.get("ref_program") is not None:
+            body = case["ref_program"]
         ref = rig.run(body)[1]
         try:
             if case.get("full_doc"):
